@@ -31,6 +31,20 @@ CLAIMS = {
                 'No axioms (Closed under the global context).',
         'ref': 'DESIGN.md section 5 C08',
     },
+    'C09': {
+        'text': 'Theorems in Coq about the interpreter model, for every program, initial world and limit, and every library meeting two stated premises '
+                '(it touches statementCount only through callbacks; it stays in lock step and passes the budget error on): the limit is tested at the head '
+                'of every statement after counting it, so statement L+1 never runs and the abort carries exactly the budget message; every started '
+                'statement (top level, script functions however invoked, included scripts) adds one and the counter never decreases; a limited run is '
+                'in LOCK STEP with the unlimited run - it gives the same result/log/globals/count or is aborted at a point the unlimited run goes past '
+                '(mutual induction over eval/call/exec); hence a run completing after N statements is unchanged by every limit >= N. Both premises are '
+                'proved for the modelled library. The model is run inside Coq against the implementation on (program, limit) pairs; an independent '
+                'reference interpreter with the same limit plus metamorphic checks (every L in 1..N+2, L = 0, log prefix, count = L+1) are the direct oracle.',
+        'note': 'trusted: Coq kernel/vm_compute; transliteration of runtime.py validated by the correspondence; the two library premises are hypotheses of '
+                'the theorems (proved for Model/LibCore.v, exercised on the real library by the oracle: arraySort callbacks, includes, data helpers). Partial: '
+                'termination of the fuelled model under a positive limit (C09_terminates) is not proved; CPython recursion limit out of scope. No axioms.',
+        'ref': 'DESIGN.md section 5 C09',
+    },
 }
 
 PENDING = 'check under construction in this session (model and proofs in progress; see DESIGN.md section 5) - not claimed until it passes on the unchanged tree'
